@@ -365,3 +365,216 @@ Proof.
       * split; auto. intros x Hx. apply H2 in Hx. eapply pick_incl; eauto.
     + apply IH; auto.
 Qed.
+
+(* ================================================================== recovery of one axis, centre form *)
+Section AxisCentre.
+  Variables (f : Z -> Q) (t r : Q).
+  Hypothesis Hf : forall i, f i == inject_Z i * r + (t + r / 2).
+
+  (** [m >= 2] labels, or one label and a fallback resolution: pixel [k] of the
+      remaining axis is mapped to the label of original pixel [p + q*k]. *)
+  Lemma axis_centre p q m fb : 1 <= m -> (2 <= m \/ fb <> None) ->
+    exists res off,
+      data_resolution_and_offset (map f (ap p q m)) fb = Ok (res, off) /\
+      (forall k, 0 <= k < m -> off + res * (inject_Z k + (1 # 2)) == f (p + q * k)) /\
+      (2 <= m -> res == r * inject_Z q /\ off == t + r * inject_Z p + r / 2 - res / 2) /\
+      (m = 1 -> fb = Some res).
+  Proof.
+    intros Hm Hfb. unfold ap. rewrite map_map.
+    destruct (Z_le_gt_dec 2 m) as [H2|H1].
+    - destruct (dro_two f t r Hf p q m fb H2) as (res & off & E & Hr & Ho).
+      exists res, off. split; [exact E|]. split; [|split; [auto | intros; lia]].
+      intros k Hk. rewrite Ho, Hr, Hf. rewrite inject_Z_plus, inject_Z_mult. field.
+    - assert (m = 1) by lia. subst m.
+      destruct Hfb as [|Hfb]; [lia|]. destruct fb as [res|]; [|congruence].
+      exists res, (f (p + q * 0) - (1 # 2) * res)%Q. split; [reflexivity|].
+      split; [|split; [intros; lia | auto]].
+      intros k Hk. assert (k = 0) by lia. subst k. simpl. field.
+  Qed.
+End AxisCentre.
+
+(** two axes: [affine_from_axis] on labels that follow arithmetic progressions *)
+Section TwoAxes.
+  Variables (fx fy : Z -> Q) (tx rx ty ry : Q).
+  Hypothesis Hfx : forall i, fx i == inject_Z i * rx + (tx + rx / 2).
+  Hypothesis Hfy : forall i, fy i == inject_Z i * ry + (ty + ry / 2).
+
+  Lemma affine_from_axis_ap px qx mx py qy my fbk :
+    1 <= mx -> 1 <= my -> ((2 <= mx /\ 2 <= my) \/ fbk <> None) ->
+    exists T,
+      affine_from_axis (map fx (ap px qx mx)) (map fy (ap py qy my)) fbk = Ok T /\
+      fb T == 0 /\ fd T == 0 /\
+      (forall j k, 0 <= j < my -> 0 <= k < mx ->
+         fst (aff_apply T (inject_Z k + (1 # 2)) (inject_Z j + (1 # 2))) == fx (px + qx * k) /\
+         snd (aff_apply T (inject_Z k + (1 # 2)) (inject_Z j + (1 # 2))) == fy (py + qy * j)) /\
+      (2 <= mx -> fa T == rx * inject_Z qx /\ fc T == tx + rx * inject_Z px + rx / 2 - rx * inject_Z qx / 2) /\
+      (2 <= my -> fe T == ry * inject_Z qy /\ ff T == ty + ry * inject_Z py + ry / 2 - ry * inject_Z qy / 2) /\
+      (mx = 1 -> exists r, fbk = Some r /\ fa T == fst r) /\
+      (my = 1 -> exists r, fbk = Some r /\ fe T == snd r).
+  Proof.
+    intros Hmx Hmy Hfb.
+    assert (Hx : 2 <= mx \/ option_map fst fbk <> None).
+    { destruct Hfb as [[? ?]|Hfb]; [left; auto | right; destruct fbk; simpl; congruence]. }
+    assert (Hy : 2 <= my \/ option_map snd fbk <> None).
+    { destruct Hfb as [[? ?]|Hfb]; [left; auto | right; destruct fbk; simpl; congruence]. }
+    destruct (axis_centre fx tx rx Hfx px qx mx (option_map fst fbk) Hmx Hx) as (xres & xoff & Ex & Cx & Rx & Fx).
+    destruct (axis_centre fy ty ry Hfy py qy my (option_map snd fbk) Hmy Hy) as (yres & yoff & Ey & Cy & Ry & Fy).
+    unfold affine_from_axis. rewrite Ex, Ey. simpl.
+    eexists; split; [reflexivity|].
+    unfold aff_mul, aff_translation, aff_scale, aff_apply; simpl.
+    split; [ring|]. split; [ring|].
+    split.
+    { intros j k Hj Hk. split.
+      - rewrite <- (Cx k Hk). ring.
+      - rewrite <- (Cy j Hj). ring. }
+    split.
+    { intros H. destruct (Rx H) as (R1 & R2). split.
+      - rewrite <- R1. ring.
+      - rewrite <- R1, R2. ring. }
+    split.
+    { intros H. destruct (Ry H) as (R1 & R2). split.
+      - rewrite <- R1. ring.
+      - rewrite <- R1, R2. ring. }
+    split.
+    { intros H. specialize (Fx H). destruct fbk as [r0|]; simpl in Fx; [|discriminate].
+      exists r0; split; auto. injection Fx as <-. ring. }
+    { intros H. specialize (Fy H). destruct fbk as [r0|]; simpl in Fy; [|discriminate].
+      exists r0; split; auto. injection Fy as <-. ring. }
+  Qed.
+End TwoAxes.
+
+(* ================================================================== _extract_transform / _locate_geo_info, computed *)
+Definition compose_tr (P : option aff) (T : aff) : aff :=
+  match P with Some p => aff_mul p T | None => T end.
+Definition is_some {A} (o : option A) : bool := match o with Some _ => true | None => false end.
+
+(** the fallback resolution the (repaired or unrepaired) code comes up with *)
+Definition fallback_of (fx : fixes) (tol : Q) (crs_coord : option coord) (gcp : bool) (P : option aff)
+  : res (option (Q * Q)) :=
+  if (fx_pix_unit fx && is_some P) || (fx_gcp_unit fx && gcp)
+  then Ok (Some (1, 1)%Q)
+  else match crs_coord with
+       | None => Ok None
+       | Some cc =>
+           match extract_geo_transform cc with
+           | None => Ok None
+           | Some orig => r <- resolution_from_affine tol orig ;; Ok (Some r)
+           end
+       end.
+
+Lemma afa_short xs ys : zlen xs = 1 \/ zlen ys = 1 -> exists e, affine_from_axis xs ys None = Err e.
+Proof.
+  intros H. unfold affine_from_axis; simpl.
+  destruct (data_resolution_and_offset xs None) as [[xr xo]|e] eqn:Ex; simpl; [|eauto].
+  destruct H as [H|H].
+  - destruct xs as [|x [|x' xs]]; try discriminate Ex. unfold zlen in H; simpl in H; lia.
+  - destruct ys as [|y [|y' ys]]; simpl; eauto. unfold zlen in H; simpl in H; lia.
+Qed.
+
+Lemma extract_transform_ok fx tol cs yd xd cy cx crs_coord gcp T :
+  lookup yd cs = Some cy -> lookup xd cs = Some cx ->
+  affine_from_axis (co_vals cx) (co_vals cy) None = Ok T ->
+  extract_transform fx tol cs (yd, xd) crs_coord gcp =
+  Ok (Some (compose_tr (if gcp then None else co_tr cx) T)).
+Proof.
+  intros Hy Hx E. unfold extract_transform; simpl. rewrite Hy, Hx, E. simpl.
+  destruct (if gcp then None else co_tr cx); reflexivity.
+Qed.
+
+Lemma extract_transform_fallback fx tol cs yd xd cy cx crs_coord gcp e r T :
+  lookup yd cs = Some cy -> lookup xd cs = Some cx ->
+  affine_from_axis (co_vals cx) (co_vals cy) None = Err e ->
+  fallback_of fx tol crs_coord gcp (if gcp then None else co_tr cx) = Ok (Some r) ->
+  affine_from_axis (co_vals cx) (co_vals cy) (Some r) = Ok T ->
+  extract_transform fx tol cs (yd, xd) crs_coord gcp =
+  Ok (Some (compose_tr (if gcp then None else co_tr cx) T)).
+Proof.
+  intros Hy Hx E F E2. unfold extract_transform; simpl. rewrite Hy, Hx, E.
+  unfold fallback_of, is_some in F.
+  set (P := if gcp then None else co_tr cx) in *.
+  destruct ((fx_pix_unit fx && match P with Some _ => true | None => false end) || (fx_gcp_unit fx && gcp)).
+  - injection F as <-. simpl. rewrite E2. simpl. destruct P; reflexivity.
+  - destruct crs_coord as [cc|]; [|discriminate].
+    destruct (extract_geo_transform cc) as [orig|]; [|discriminate].
+    destruct (resolution_from_affine tol orig) as [r0|]; simpl in F; [|discriminate].
+    injection F as <-. simpl. rewrite E2. simpl. destruct P; reflexivity.
+Qed.
+
+Lemma locate_compute fx tol x sd ny nx :
+  spatial_dims (map fst (x_dims x)) = Some sd ->
+  lookup (fst sd) (x_dims x) = Some ny -> lookup (snd sd) (x_dims x) = Some nx ->
+  locate_geo_info fx tol x =
+    (let cc := locate_crs_coords (x_gm x) (x_attrs x) (x_coords x) in
+     let '(crs_coord, c, gcp) :=
+       match cc with
+       | (_, c0) :: _ => (Some c0, extract_crs c0, extract_gcps c0)
+       | [] => (None, get_crs_from_attrs x sd, None)
+       end in
+     transform <- extract_transform fx tol (x_coords x) sd crs_coord (is_some gcp) ;;
+     Ok (GeoState (Some sd) c transform
+                  (match gcp with
+                   | Some pts => Some (AGcp ny nx (match transform with Some t => t | None => aff_id end) pts c)
+                   | None => match transform with Some t => Some (ABox (GBox ny nx t c)) | None => None end
+                   end))).
+Proof.
+  intros H1 H2 H3. unfold locate_geo_info. rewrite H1, H2, H3. reflexivity.
+Qed.
+
+(** The geometric core: labels following arithmetic progressions of original
+    pixel indices on a regular grid, possibly in pixel space with an encoded
+    pixel->world transform [P]. *)
+Section Labels.
+  Variables (fxl fyl : Z -> Q) (tx rx ty ry : Q).
+  Hypothesis Hfx : forall i, fxl i == inject_Z i * rx + (tx + rx / 2).
+  Hypothesis Hfy : forall i, fyl i == inject_Z i * ry + (ty + ry / 2).
+
+  Lemma extract_transform_ap fx tol cs yd xd cy cx crs_coord gcp px qx mx py qy my :
+    lookup yd cs = Some cy -> lookup xd cs = Some cx ->
+    co_vals cx = map fxl (ap px qx mx) -> co_vals cy = map fyl (ap py qy my) ->
+    1 <= mx -> 1 <= my ->
+    ((2 <= mx /\ 2 <= my) \/
+     exists r, fallback_of fx tol crs_coord gcp (if gcp then None else co_tr cx) = Ok (Some r)) ->
+    exists T,
+      extract_transform fx tol cs (yd, xd) crs_coord gcp =
+        Ok (Some (compose_tr (if gcp then None else co_tr cx) T)) /\
+      fb T == 0 /\ fd T == 0 /\
+      (forall j k, 0 <= j < my -> 0 <= k < mx ->
+         fst (aff_apply T (inject_Z k + (1 # 2)) (inject_Z j + (1 # 2))) == fxl (px + qx * k) /\
+         snd (aff_apply T (inject_Z k + (1 # 2)) (inject_Z j + (1 # 2))) == fyl (py + qy * j)) /\
+      (2 <= mx -> fa T == rx * inject_Z qx /\ fc T == tx + rx * inject_Z px + rx / 2 - rx * inject_Z qx / 2) /\
+      (2 <= my -> fe T == ry * inject_Z qy /\ ff T == ty + ry * inject_Z py + ry / 2 - ry * inject_Z qy / 2) /\
+      (mx = 1 -> exists r, fallback_of fx tol crs_coord gcp (if gcp then None else co_tr cx) = Ok (Some r) /\ fa T == fst r) /\
+      (my = 1 -> exists r, fallback_of fx tol crs_coord gcp (if gcp then None else co_tr cx) = Ok (Some r) /\ fe T == snd r).
+  Proof.
+    intros Hy Hx Vx Vy Hmx Hmy Hfb.
+    destruct (Z_le_gt_dec 2 mx) as [Hx2|Hx1]; [destruct (Z_le_gt_dec 2 my) as [Hy2|Hy1]|].
+    - (* both axes have >= 2 labels *)
+      destruct (affine_from_axis_ap fxl fyl tx rx ty ry Hfx Hfy px qx mx py qy my None Hmx Hmy)
+        as (T & E & P1 & P2 & P3 & P4 & P5 & P6 & P7); [left; auto|].
+      exists T. rewrite <- Vx, <- Vy in E.
+      split; [eapply extract_transform_ok; eauto|].
+      repeat (split; [assumption|]). split; intros; lia.
+    - (* one row *)
+      destruct Hfb as [[? ?]|(r & F)]; [lia|].
+      destruct (afa_short (co_vals cx) (co_vals cy)) as (e & Ee).
+      { right. rewrite Vy, zlen_map, zlen_ap; lia. }
+      destruct (affine_from_axis_ap fxl fyl tx rx ty ry Hfx Hfy px qx mx py qy my (Some r) Hmx Hmy)
+        as (T & E & P1 & P2 & P3 & P4 & P5 & P6 & P7); [right; congruence|].
+      exists T. rewrite <- Vx, <- Vy in E.
+      split; [eapply extract_transform_fallback; eauto|].
+      repeat (split; [assumption|]).
+      split; intros H; [destruct (P6 H) as (r0 & R0 & R1) | destruct (P7 H) as (r0 & R0 & R1)];
+        injection R0 as <-; exists r; auto.
+    - (* one column *)
+      destruct Hfb as [[? ?]|(r & F)]; [lia|].
+      destruct (afa_short (co_vals cx) (co_vals cy)) as (e & Ee).
+      { left. rewrite Vx, zlen_map, zlen_ap; lia. }
+      destruct (affine_from_axis_ap fxl fyl tx rx ty ry Hfx Hfy px qx mx py qy my (Some r) Hmx Hmy)
+        as (T & E & P1 & P2 & P3 & P4 & P5 & P6 & P7); [right; congruence|].
+      exists T. rewrite <- Vx, <- Vy in E.
+      split; [eapply extract_transform_fallback; eauto|].
+      repeat (split; [assumption|]).
+      split; intros H; [destruct (P6 H) as (r0 & R0 & R1) | destruct (P7 H) as (r0 & R0 & R1)];
+        injection R0 as <-; exists r; auto.
+  Qed.
+End Labels.
